@@ -34,37 +34,29 @@ InDomain(B, op, a) ==
       [] op = "rank0" -> a >= 0 /\ a <= B.len
       [] OTHER        -> TRUE
 
-TraceInit == l = 1 /\ cur = [len |-> 0, runs |-> << >>, cum |-> << >>]
+\* Every query event names the line of the `def` event of its object (`d`); no other def lies in between.
+\* All verdicts depend only on the event and that def event, so they are computed at constant level
+\* (TLC evaluates heavy operators about 1000 times faster there than inside an action).
+ObjAt(j) == [len |-> Rec[j].len, runs |-> Rec[j].runs, cum |-> Rec[j].cum]
+DefOK(j) == LET e == Rec[j] B == ObjAt(j) IN
+            /\ WellFormed(B) /\ CumOK(B)
+            /\ e.built = "ok"
+            /\ e.obs = <<B.len, OnesF(B), ZerosF(B)>>
+Refers(j) == LET d == Rec[j].d IN d >= 1 /\ d < j /\ Rec[d].e = "def" /\ \A k \in (d + 1)..(j - 1) : Rec[k].e # "def"
+QueryOK(j) == LET e == Rec[j] B == ObjAt(e.d) IN
+              Refers(j) /\ \A i \in 1..Len(e.a) : InDomain(B, e.op, e.a[i]) /\ e.r[i] = Answer(B, e.op, e.a[i])
+RunsOK(j) == LET B == ObjAt(Rec[j].d) IN
+             Refers(j) /\ Len(Rec[j].items) = Len(B.runs) /\ \A k \in 1..Len(B.runs) : Rec[j].items[k] = RunItemF(B, k)
+Verdict == [j \in 1..Len(Rec) |-> CASE Rec[j].e = "def" -> DefOK(j) [] Rec[j].e = "q" -> QueryOK(j) [] Rec[j].e = "runs" -> RunsOK(j) [] OTHER -> FALSE]
 
-Build ==
-    /\ l <= Len(Rec) /\ Rec[l].e = "def"
-    /\ LET e == Rec[l]
-           B == [len |-> e.len, runs |-> e.runs, cum |-> e.cum]
-       IN /\ WellFormed(B)
-          /\ CumOK(B)
-          /\ e.built = "ok"
-          /\ e.obs = <<B.len, OnesF(B), ZerosF(B)>>
-          /\ cur' = B
-    /\ l' = l + 1
-
-Query ==
-    /\ l <= Len(Rec) /\ Rec[l].e = "q"
-    /\ LET e == Rec[l] IN
-         \A j \in 1..Len(e.a) : InDomain(cur, e.op, e.a[j]) /\ e.r[j] = Answer(cur, e.op, e.a[j])
-    /\ UNCHANGED cur
-    /\ l' = l + 1
-
-\* The run iterator of the run-length vector yields exactly the maximal runs with running counters.
-RunIter ==
-    /\ l <= Len(Rec) /\ Rec[l].e = "runs"
-    /\ Len(Rec[l].items) = Len(cur.runs)
-    /\ \A k \in 1..Len(cur.runs) : Rec[l].items[k] = RunItemF(cur, k)
-    /\ UNCHANGED cur
-    /\ l' = l + 1
-
-TraceNext == Build \/ Query \/ RunIter
+TraceInit == l = 1 /\ cur = 0
+\* cur = line of the current object's def event (0 = none)
+Event == /\ l <= Len(Rec) /\ Verdict[l]
+         /\ cur' = IF Rec[l].e = "def" THEN l ELSE cur
+         /\ l' = l + 1
+TraceNext == Event
 TraceSpec == TraceInit /\ [][TraceNext]_vars
 
-\* Layer A invariant evaluated in every state of the validated trace.
-ObjWellFormed == WellFormed(cur) /\ CumOK(cur)
+\* Layer A invariant evaluated in every state of the validated trace: queries refer to the current object.
+ObjWellFormed == l > 1 /\ Rec[l - 1].e # "def" => Rec[l - 1].d = cur
 =============================================================================
